@@ -10,6 +10,7 @@ import (
 	"strings"
 
 	"cuelang.org/go/cue"
+	"cuelang.org/go/cue/ast"
 	"cuelang.org/go/cue/cuecontext"
 	"cuelang.org/go/cue/format"
 	"cuelang.org/go/cue/parser"
@@ -244,6 +245,26 @@ func runProfile(x cue.Value, orig *CNode, pr profile, suspect bool) caseOut {
 		co.verdict = "FORMAT"
 		return co
 	}
+	if _, perr := parser.ParseExpr("printed", text); perr != nil && strings.Contains(text, "_|_ //") {
+		// known finding F15: an error value (below an optional field) is written `_|_ // message`
+		// and, in a one-line struct, the closing brace lands inside the comment.  The class is
+		// recognised exactly: the same syntax tree formatted without the comments of its bottom
+		// literals must pass everything below.
+		n := x.Syntax(pr.opts...)
+		ast.Walk(n, func(m ast.Node) bool {
+			if b, ok := m.(*ast.BottomLit); ok {
+				ast.SetComments(b, nil)
+			}
+			return true
+		}, nil)
+		if b, ferr := format.Node(n); ferr == nil {
+			fixed := strings.TrimSpace(string(b))
+			if _, perr2 := parser.ParseExpr("printed", fixed); perr2 == nil {
+				co.flags = append(co.flags, "f15")
+				text = fixed
+			}
+		}
+	}
 	if _, perr := parser.ParseExpr("printed", text); perr != nil {
 		// known finding F3: `< -1` is written `<-1`, which lexes as the arrow token.  The class is
 		// recognised exactly: the text with a blank inserted after every `<` that precedes `-`
@@ -267,6 +288,23 @@ func runProfile(x cue.Value, orig *CNode, pr profile, suspect bool) caseOut {
 		co.verdict = "OK"
 	} else {
 		co.verdict = "DIFF"
+		// known finding F8 (C01/C05: an embedded plain struct literal changes closedness in the
+		// evaluator) met through the exporter, which embeds literals that have pattern constraints.
+		// Recognised exactly: the same text with the embedded plain literals spliced into their
+		// parent literal (the same value by the spec) must give the expected canonical form.
+		if e, perr := parser.ParseExpr("printed", text); perr == nil {
+			if spliced, n := spliceEmbeddedLiterals(e); n > 0 {
+				if b, ferr := format.Node(spliced); ferr == nil {
+					t2 := strings.TrimSpace(string(b))
+					if re2, _ := evalTree("x: "+t2+"\n", "("+t2+")"); re2 != nil && re2.String() == co.want {
+						co.verdict = "OK"
+						co.flags = append(co.flags, "f8")
+						co.got = re2.String()
+						text = t2
+					}
+				}
+			}
+		}
 	}
 	sexp, inFrag, cerr := convertText(text)
 	if cerr != nil {
@@ -278,6 +316,34 @@ func runProfile(x cue.Value, orig *CNode, pr profile, suspect bool) caseOut {
 		}
 	}
 	return co
+}
+
+// spliceEmbeddedLiterals replaces every embedded plain struct literal {A} inside a struct literal
+// by its declarations A (recursively); returns the number of splices.
+func spliceEmbeddedLiterals(e ast.Expr) (ast.Expr, int) {
+	n := 0
+	var fix func(elts []ast.Decl) []ast.Decl
+	fix = func(elts []ast.Decl) []ast.Decl {
+		var out []ast.Decl
+		for _, d := range elts {
+			if em, ok := d.(*ast.EmbedDecl); ok {
+				if st, ok := em.Expr.(*ast.StructLit); ok {
+					n++
+					out = append(out, fix(st.Elts)...)
+					continue
+				}
+			}
+			out = append(out, d)
+		}
+		return out
+	}
+	ast.Walk(e, func(m ast.Node) bool {
+		if st, ok := m.(*ast.StructLit); ok {
+			st.Elts = fix(st.Elts)
+		}
+		return true
+	}, nil)
+	return e, n
 }
 
 func (co caseOut) implLine() string {
@@ -369,7 +435,19 @@ func main() {
 		// direct check of the property on one program text (field x) under one or all profiles
 		data, _ := os.ReadFile(a["--file"])
 		text := string(data)
-		orig, st := evalTree(text, "x")
+		// the conjuncts of x as one expression (Program.CUE writes one `x: <expr>` per line); a
+		// reference to x is not used for the closedness probes (design/Core.md)
+		inline := "x"
+		var cs []string
+		for _, ln := range strings.Split(text, "\n") {
+			if strings.HasPrefix(ln, "x: ") {
+				cs = append(cs, "("+strings.TrimPrefix(ln, "x: ")+")")
+			}
+		}
+		if len(cs) > 0 {
+			inline = "(" + strings.Join(cs, " & ") + ")"
+		}
+		orig, st := evalTree(text, inline)
 		if orig == nil || errTree(orig) {
 			fmt.Printf("ORIG-ERROR %s\n", st)
 			return
